@@ -57,6 +57,17 @@ def strip_comments(src):
 
 
 def coq_files():
+    """the development = the .v files tracked by git (work-in-progress files that are not
+    committed are not part of it); falls back to the directory listing outside a checkout"""
+    try:
+        rc, out = sh(["git", "ls-files", "coq/Model", "coq/Proofs", "coq/Props"], cwd=ROOT)
+        fs = sorted(l[len("coq/"):] for l in out.splitlines() if l.endswith(".v"))
+        fs = [f for f in fs if os.path.exists(os.path.join(COQ, f))]
+        if rc == 0 and fs:
+            order = {"Model": 0, "Proofs": 1, "Props": 2}
+            return sorted(fs, key=lambda f: (order.get(f.split("/")[0], 3), f))
+    except Exception:
+        pass
     fs = []
     for d in ("Model", "Proofs", "Props"):
         p = os.path.join(COQ, d)
